@@ -397,7 +397,7 @@ class C04Bounded(Bounded):
         from sigma.types import SigmaString, SigmaExpansion
         from sigma.exceptions import SigmaError
         rnd = random.Random(seed)
-        alphabet = ["a", "Z", "ä", "€", "\n", "\\\\", "\\*", " ", "\U0001F600"]
+        alphabet = ["a", "Z", "ä", "€", "\n", "\\\\", "\\*", " ", "\U0001F600", "中", "Ā"]
         maxlen = 3 if tier == "quick" else 4
         enc = {"wide": lambda t: t.encode("utf-16le"), "utf16le": lambda t: t.encode("utf-16le"), "utf16be": lambda t: t.encode("utf-16be"),
                "utf16": lambda t: b"\xff\xfe" + t.encode("utf-16le")}
